@@ -1,4 +1,5 @@
 import ShellOp.Proofs.WorkerSys
+import ShellOp.Generated.Facts
 /-!
 # C17 — shutdown stops the queues cleanly
 
@@ -206,6 +207,11 @@ theorem shutdown_sequence (cfg : Cfg) (s s' : State)
   · simp at h
   · rename_i s1 hs1
     split at hs1 <;> simp at hs1 <;> subst hs1 <;> simp at h <;> subst h <;> simp_all
+
+/-- **C17.3, cluster events (tie T1).** `handleWatchEvent` begins with `if ei.stopped { … return }`: once
+`PauseHandleEvents` has set the flag of an informer, its watch events produce nothing (the model's
+`kubeEvent` step is disabled while `kubePaused`). -/
+theorem watch_events_ignored_after_pause : Facts.c17_watchEventChecksStoppedFirst = true := by decide
 
 /-! ### Non-vacuity and witnesses -/
 
